@@ -60,6 +60,9 @@ theorem step_not_oob {s : State} {op : Op} (hw : WF s) (hpre : op.srcReadable) :
     · split <;> simp
     · simp
   | curFromBuf c b => simp [step]
+  | curSub dst src off len =>
+    simp only [step]
+    split <;> simp
   | bufFromArray b bs =>
     simp only [step]
     split
